@@ -1,0 +1,123 @@
+//go:build verif
+
+package rest
+
+// Contracts for the govc verifier (/verif). Comment-only.
+
+// ---- assumed: HTTP response writer, JSON encoder, RPC client (ghost counters) ----
+//@ ghost var httpResponses int
+//@ ghost var httpLastStatus int
+//@ ghost var httpDocs int
+//@ ghost var served int
+//@ ghost var rpcN int
+//@ ghost var rpcLastSvc string
+//@ ghost var rpcLastMethod string
+
+//@ extern http.ResponseWriter.WriteHeader(statusCode)
+//@   ensures httpResponses == old(httpResponses) + 1 && httpLastStatus == statusCode
+//@   modifies httpResponses, httpLastStatus
+
+//@ extern json.Encoder.Encode(v)
+//@   ensures httpDocs == old(httpDocs) + 1
+//@   modifies httpDocs
+
+//@ extern http.Error(w, error, code)
+//@   ensures httpResponses == old(httpResponses) + 1 && httpLastStatus == code && httpDocs == old(httpDocs) + 1
+//@   modifies httpResponses, httpLastStatus, httpDocs
+
+//@ extern http.Handler.ServeHTTP(w, r)
+//@   ensures served == old(served) + 1
+//@   modifies served, httpResponses, httpLastStatus, httpDocs, rpcN, rpcLastSvc, rpcLastMethod
+
+//@ extern rpc.Client.CallContext(ctx, dest, svcName, svcMethod, args, reply)
+//@   ensures rpcN == old(rpcN) + 1 && rpcLastSvc == svcName && rpcLastMethod == svcMethod
+//@   modifies rpcN, rpcLastSvc, rpcLastMethod, *reply
+
+// ---- "the response body is a single JSON document" ----
+//@ func (api *API) setHeaders
+//@   property C11
+//@   modifies nothing
+
+//@ func (api *API) sendResponse
+//@   property C11
+//@   ensures httpResponses == old(httpResponses) + 1
+//@   ensures httpDocs == old(httpDocs) + ite(err != nil || resp != nil, 1, 0)
+//@   ensures err != nil ==> httpLastStatus >= 400
+//@   ensures err != nil && status >= 400 ==> httpLastStatus == status
+//@   ensures err == nil && status != autoStatus ==> httpLastStatus == status
+//@   ensures rpcN == old(rpcN)
+//@   modifies httpResponses, httpLastStatus, httpDocs
+
+// ---- "refused as malformed with a 4xx status and performs no cluster operation" ----
+// nil result <=> exactly one (4xx) response was written; non-nil result <=> nothing was written yet
+//@ func (api *API) parseCidOrError
+//@   property C11
+//@   ensures [nil-iff-answered] (res == nil) <==> (httpResponses == old(httpResponses) + 1)
+//@   ensures [non-nil-silent] res != nil ==> httpResponses == old(httpResponses) && httpDocs == old(httpDocs)
+//@   ensures [refusal-is-4xx] res == nil ==> httpLastStatus >= 400 && httpLastStatus < 500 && httpDocs == old(httpDocs) + 1
+//@   ensures [no-operation] rpcN == old(rpcN)
+//@   ensures [consistent-depth] res != nil ==> res.MaxDepth == ite(res.Mode == types.PinModeDirect, 0, -1)
+//@   modifies httpResponses, httpLastStatus, httpDocs, heap(types.PinOptions), heap(types.Pin)
+
+//@ func (api *API) parsePinPathOrError
+//@   property C11
+//@   ensures [nil-iff-answered] (res == nil) <==> (httpResponses == old(httpResponses) + 1)
+//@   ensures [non-nil-silent] res != nil ==> httpResponses == old(httpResponses) && httpDocs == old(httpDocs)
+//@   ensures [refusal-is-4xx] res == nil ==> httpLastStatus >= 400 && httpLastStatus < 500 && httpDocs == old(httpDocs) + 1
+//@   ensures [no-operation] rpcN == old(rpcN)
+//@   modifies httpResponses, httpLastStatus, httpDocs, heap(types.PinOptions), heap(types.PinPath)
+
+//@ func (api *API) parsePidOrError
+//@   property C11
+//@   ensures [answered-only-when-empty] httpResponses != old(httpResponses) ==> res == "" && httpResponses == old(httpResponses) + 1 && httpLastStatus == 400
+//@   ensures [non-empty-silent] res != "" ==> httpResponses == old(httpResponses) && httpDocs == old(httpDocs)
+//@   ensures [no-operation] rpcN == old(rpcN)
+//@   modifies httpResponses, httpLastStatus, httpDocs
+
+// ---- handlers: exactly one response, at most one document, refused => no RPC, else exactly the route's RPC ----
+//@ spec func oneExchange(svc string, method string) bool = httpResponses == old(httpResponses) + 1 && httpDocs <= old(httpDocs) + 1 && (rpcN == old(rpcN) || (rpcN == old(rpcN) + 1 && rpcLastSvc == svc && rpcLastMethod == method))
+
+//@ func (api *API) pinHandler
+//@   property C11
+//@   ensures httpResponses == old(httpResponses) + 1 && httpDocs <= old(httpDocs) + 1
+//@   ensures rpcN == old(rpcN) || (rpcN == old(rpcN) + 1 && rpcLastSvc == "Cluster" && rpcLastMethod == "Pin")
+//@   ensures rpcN == old(rpcN) ==> httpLastStatus >= 400 && httpLastStatus < 500
+//@   modifies httpResponses, httpLastStatus, httpDocs, rpcN, rpcLastSvc, rpcLastMethod, heap(types.PinOptions), heap(types.Pin)
+
+//@ func (api *API) unpinHandler
+//@   property C11
+//@   ensures httpResponses == old(httpResponses) + 1 && httpDocs <= old(httpDocs) + 1
+//@   ensures rpcN == old(rpcN) || (rpcN == old(rpcN) + 1 && rpcLastSvc == "Cluster" && rpcLastMethod == "Unpin")
+//@   ensures rpcN == old(rpcN) ==> httpLastStatus >= 400 && httpLastStatus < 500
+//@   modifies httpResponses, httpLastStatus, httpDocs, rpcN, rpcLastSvc, rpcLastMethod, heap(types.PinOptions), heap(types.Pin)
+
+//@ func (api *API) pinPathHandler
+//@   property C11
+//@   ensures httpResponses == old(httpResponses) + 1 && httpDocs <= old(httpDocs) + 1
+//@   ensures rpcN == old(rpcN) || (rpcN == old(rpcN) + 1 && rpcLastSvc == "Cluster" && rpcLastMethod == "PinPath")
+//@   ensures rpcN == old(rpcN) ==> httpLastStatus >= 400 && httpLastStatus < 500
+//@   modifies httpResponses, httpLastStatus, httpDocs, rpcN, rpcLastSvc, rpcLastMethod, heap(types.PinOptions), heap(types.Pin), heap(types.PinPath)
+
+//@ func (api *API) unpinPathHandler
+//@   property C11
+//@   ensures httpResponses == old(httpResponses) + 1 && httpDocs <= old(httpDocs) + 1
+//@   ensures rpcN == old(rpcN) || (rpcN == old(rpcN) + 1 && rpcLastSvc == "Cluster" && rpcLastMethod == "UnpinPath")
+//@   ensures rpcN == old(rpcN) ==> httpLastStatus >= 400 && httpLastStatus < 500
+//@   modifies httpResponses, httpLastStatus, httpDocs, rpcN, rpcLastSvc, rpcLastMethod, heap(types.PinOptions), heap(types.Pin), heap(types.PinPath)
+
+//@ func (api *API) notFoundHandler
+//@   property C11
+//@   ensures httpResponses == old(httpResponses) + 1 && httpLastStatus == 404 && rpcN == old(rpcN) && httpDocs == old(httpDocs) + 1
+//@   modifies httpResponses, httpLastStatus, httpDocs
+
+// ---- "no route performs anything for a request without valid credentials" ----
+//@ closure basicAuthHandler#1
+//@   property C11
+//@   ensures [at-most-once] served == old(served) || served == old(served) + 1
+//@   ensures [served-only-with-valid-credentials] served == old(served) + 1 ==> ok && haskey(credentials, username) && credentials[username] == password
+//@   ensures [refused-does-nothing] served == old(served) ==> rpcN == old(rpcN)
+//@   ensures [refused-is-401] served == old(served) && httpResponses != old(httpResponses) ==> httpLastStatus == 401
+//@   loop 1 (range credentials)
+//@     invariant authorized <==> (exists u string :: in(u, seen1) && u == username && credentials[u] == password)
+//@     invariant served == old(served) && rpcN == old(rpcN) && httpResponses == old(httpResponses)
+//@   modifies served, httpResponses, httpLastStatus, httpDocs, rpcN, rpcLastSvc, rpcLastMethod
